@@ -103,6 +103,125 @@ def canon_expr(func, expr):
     return norm(ast.fix_missing_locations(_Subst(func).visit(_copy(expr))))
 
 
+class Frame:
+    """one activation in a followed call chain: the function, its parameters bound to the caller's argument expressions"""
+
+    def __init__(self, func, bind=None, parent=None, call=None):
+        self.func, self.bind, self.parent, self.call = func, bind or {}, parent, call
+        self.depth = 0 if parent is None else parent.depth + 1
+        self._stores = {n.id for n in func.own_nodes() if isinstance(n, ast.Name) and isinstance(n.ctx, (ast.Store, ast.Del))}
+
+    def lift(self, expr, budget=4):
+        """the expression in terms of the top frame: single-assignment locals are copy-propagated (call results stay a
+        variable), parameters are replaced by the caller's arguments; locals of a helper are tagged name@helper"""
+        fr = self
+
+        class T(ast.NodeTransformer):
+            def visit_Name(self, node):
+                if not isinstance(node.ctx, ast.Load):
+                    return node
+                if fr.parent is not None and node.id in fr.bind and node.id not in fr._stores:
+                    return fr.parent.lift(fr.bind[node.id], budget)
+                v = _single_assign(fr.func, node.id)
+                if v is not None and not isinstance(v, (ast.Call, ast.Lambda)) and budget > 0:
+                    return fr.lift(v, budget - 1)
+                if fr.parent is not None and (node.id in fr._stores or node.id in fr.func.params()):
+                    return ast.Name(id=f'{node.id}@{fr.func.name}', ctx=ast.Load())
+                return node
+
+            def visit_Lambda(self, node):
+                return node
+
+            def visit_IfExp(self, node):
+                self.generic_visit(node)
+                if ast.dump(node.test) == ast.dump(node.body):  # X if X else Y == X or Y
+                    return ast.BoolOp(op=ast.Or(), values=[node.body, node.orelse])
+                return node
+
+        return ast.fix_missing_locations(T().visit(_copy(expr)))
+
+    def text(self, expr):
+        return norm(self.lift(expr))
+
+    def origin(self, expr):
+        """(frame, name) of the variable a plain name denotes after following parameter bindings upwards, else None"""
+        fr = self
+        while isinstance(expr, ast.Name):
+            if fr.parent is not None and expr.id in fr.bind and expr.id not in fr._stores:
+                fr, expr = fr.parent, fr.bind[expr.id]
+                continue
+            v = _single_assign(fr.func, expr.id)
+            if v is not None and isinstance(v, ast.Name):
+                expr = v
+                continue
+            return fr, expr.id
+        return None
+
+
+def region_frames(prog, top, follow, depth=2):
+    """frames of a region: the top function plus every helper reached by calls for which follow(h) holds (<= depth levels)"""
+    out = [Frame(top)]
+    i = 0
+    while i < len(out):
+        fr = out[i]
+        i += 1
+        if fr.depth >= depth:
+            continue
+        for call in sorted(fr.func.calls(), key=lambda c: (c.lineno, c.col_offset)):
+            h = prog.funcs.get(_qcallee(prog, call, fr.func) or '')
+            chain, f = [], fr
+            while f is not None:
+                chain.append(f.func)
+                f = f.parent
+            if h is None or h in chain or not follow(h):
+                continue
+            bind = {}
+            for prm in h.params():
+                a = _call_arg(h, call, prm)
+                if a is not None:
+                    bind[prm] = a
+            out.append(Frame(h, bind, fr, call))
+    return out
+
+
+class _IFlow(Flow):
+    """Flow that descends into followed helpers (helper extraction, one or two levels): the helper body is interpreted in
+    place with its own Frame, its exits continue in the caller, its exceptions reach the caller's enclosing try"""
+
+    def __init__(self, prog, top, follow, depth=2):
+        super().__init__()
+        self.prog, self.follow, self.maxdepth = prog, follow, depth
+        self.frames = [Frame(top)]
+        self.followed = {}  # qname -> Func
+        self.followed_calls = set()
+
+    @property
+    def fr(self):
+        return self.frames[-1]
+
+    def descend(self, call, st):
+        """states after the call when it is a followed helper, else None"""
+        fr = self.fr
+        h = self.prog.funcs.get(_qcallee(self.prog, call, fr.func) or '')
+        if h is None or fr.depth >= self.maxdepth or any(f.func is h for f in self.frames) or not self.follow(h):
+            return None
+        bind = {}
+        for prm in h.params():
+            a = _call_arg(h, call, prm)
+            if a is not None:
+                bind[prm] = a
+        self.followed[h.qname] = h
+        self.followed_calls.add(id(call))
+        self.frames.append(Frame(h, bind, fr, call))
+        try:
+            out = self.block(h.node.body, {st})
+        finally:
+            self.frames.pop()
+        if out.exc and self._try:
+            self._try[-1] |= out.exc
+        return out.normal | out.ret
+
+
 def ws_of(func, expr, kb=None):
     """(receiver expr, kind) when expr denotes a work set ``X.get('todo'|'doing'|'do'[, default])``, directly or
     through a single-assignment local; kb binds loop variables ranging over literal key tuples"""
@@ -494,132 +613,190 @@ class _Reply(Flow):
 # R-C05-1 (c)  routing inside Hand._res
 
 
-class _Route(Flow):
-    """state = (outcome oracle, came through a handler?, #complete, #update, #purge)  - counters saturate at 2"""
+_ROUTED = (SCHED + '.complete', SCHED + '.update', SCHED + '.purge')
 
-    def __init__(self, prog, g, msg, state_vars):
-        super().__init__()
-        self.prog, self.g, self.msg, self.svars = prog, g, msg, state_vars
-        self.sites = {}  # id(call) -> [call, qname, set(outcomes)]
-        self.stmts = {}  # id(stmt) -> [stmt, set(outcomes)]
+
+def _reaches(ctx, h, targets):
+    key = ('_c05_reach', h.qname)
+    cache = ctx.__dict__.setdefault('_c05_rc', {})
+    if key not in cache:
+        cache[key] = ctx.cg.reachable([h.qname], kinds={'direct'})
+    return bool(cache[key] & set(targets))
+
+
+class _Route(_IFlow):
+    """state = (outcome oracle, came through a handler?, #complete, #update, #purge, job lookup succeeded?, last test
+    evaluated between the successful lookup and complete)  - counters saturate at 2.
+    Helpers of the same module that lead to complete/update/purge are followed (Hand._settle style extraction)."""
+
+    def __init__(self, ctx, g, msg):
+        prog = ctx.prog
+        super().__init__(prog, g, lambda h: h.module is g.module and h.qname not in _ROUTED and _reaches(ctx, h, _ROUTED))
+        self.g, self.msg = g, msg
+        self.sites = {}  # id(call) -> [call, qname, set(outcomes), frame]
         self.opaque = []
+        self.raised_before_complete = []
+        self._sv = {}
 
-    def _is_state_expr(self, e):
-        if isinstance(e, ast.Name) and e.id in self.svars:
-            return True
-        return isinstance(e, ast.Call) and _is_translate_of_success(self.prog, self.g, e, self.msg)
+    def svars(self, fr):
+        """locals of a frame that hold nothing but Hand._translate(<msg>.success)"""
+        k = id(fr.func)
+        if k not in self._sv:
+            names = set()
+            for n in fr.func.own_nodes():
+                if isinstance(n, ast.Assign) and len(n.targets) == 1 and isinstance(n.targets[0], ast.Name):
+                    names.add(n.targets[0].id)
+            self._sv[k] = {
+                v
+                for v in names
+                if v not in fr.func.params()
+                and assigned_value(fr.func, v)
+                and all(self.is_translate(x, fr) for x in assigned_value(fr.func, v))
+            }
+        return self._sv[k]
 
-    def _is_flag(self, e):
-        return isinstance(e, ast.Attribute) and e.attr == 'success' and isinstance(e.value, ast.Name) and e.value.id == self.msg
+    def is_translate(self, e, fr):
+        return (
+            isinstance(e, ast.Call)
+            and _qcallee(self.prog, e, fr.func) == 'dawgie.pl.farm.Hand._translate'
+            and len(e.args) == 1
+            and fr.text(e.args[0]) == f'{self.msg}.success'
+        )
+
+    def is_state_expr(self, e, fr):
+        if isinstance(e, ast.Name):
+            o = fr.origin(e)
+            return o is not None and o[1] in self.svars(o[0])
+        return self.is_translate(e, fr)
+
+    def is_flag(self, e, fr):
+        return isinstance(e, ast.Attribute) and e.attr == 'success' and fr.text(e) == f'{self.msg}.success'
 
     def _truth(self, e, o):
-        if self._is_flag(e):
+        fr = self.fr
+        if self.is_flag(e, fr):
             return o == S
         if isinstance(e, ast.Compare) and len(e.ops) == 1:
             a, b, op = e.left, e.comparators[0], e.ops[0]
-            if self._is_flag(a) and is_none(b):
+            if self.is_flag(a, fr) and is_none(b):
                 if isinstance(op, (ast.Is, ast.Eq)):
                     return o == I
                 if isinstance(op, (ast.IsNot, ast.NotEq)):
                     return o != I
-            if not self._is_state_expr(a) and self._is_state_expr(b):
+            if not self.is_state_expr(a, fr) and self.is_state_expr(b, fr):
                 a, b = b, a
-            if self._is_state_expr(a):
-                m = _state_member(self.prog, b, self.g)
+            if self.is_state_expr(a, fr):
+                m = _state_member(self.prog, b, fr.func)
                 if m is not None:
                     if isinstance(op, (ast.Eq, ast.Is)):
                         return o == m
                     if isinstance(op, (ast.NotEq, ast.IsNot)):
                         return o != m
                 if isinstance(b, (ast.List, ast.Tuple, ast.Set)) and isinstance(op, (ast.In, ast.NotIn)):
-                    ms = [_state_member(self.prog, x, self.g) for x in b.elts]
+                    ms = [_state_member(self.prog, x, fr.func) for x in b.elts]
                     if all(x is not None for x in ms):
                         return (o in ms) == isinstance(op, ast.In)
         return None
 
     def on_test(self, e, st):
         v = self._truth(e, st[0])
+        if st[5] and st[2] == 0:  # a guard between the successful lookup and complete: remember it for the report
+            st = st[:6] + (norm(e),)
         if v is None:
-            if (names_in(e) & self.svars) or any(self._is_flag(n) for n in ast.walk(e)):
+            if any(self.is_state_expr(n, self.fr) for n in ast.walk(e) if isinstance(n, ast.Name)) or any(
+                self.is_flag(n, self.fr) for n in ast.walk(e)
+            ):
                 self.opaque.append(e)
             return (st,), (st,)
         return ((st,), ()) if v else ((), (st,))
 
+    def on_raise(self, node, st):
+        if st[5] and st[2] == 0 and not st[1]:
+            self.raised_before_complete.append((node, st, self.fr))
+        return (st,)
+
     def on_handler(self, h, st):
         return ((st[0], True) + st[2:],)
 
-    def on_stmt(self, s, st):
-        self.stmts.setdefault(id(s), [s, set()])[1].add(st[0])
-        return (st,)
-
     def on_call(self, call, st):
-        q = _qcallee(self.prog, call, self.g)
-        self.sites.setdefault(id(call), [call, q, set()])[2].add(st[0])
-        o, exc, nc, nu, np_ = st
+        q = _qcallee(self.prog, call, self.fr.func)
+        self.sites.setdefault(id(call), [call, q, set(), self.fr])[2].add(st[0])
+        o, exc, nc, nu, np_, found, guard = st
         if q == SCHED + '.complete':
             nc = min(2, nc + 1)
         elif q == SCHED + '.update':
             nu = min(2, nu + 1)
         elif q == SCHED + '.purge':
             np_ = min(2, np_ + 1)
-        return ((o, exc, nc, nu, np_),)
+        elif q == SCHED + '.find':
+            found = True  # returned normally (IndexError leaves through the handler)
+        else:
+            sub = self.descend(call, st)
+            if sub is not None:
+                return tuple(sub)
+        return ((o, exc, nc, nu, np_, found, guard),)
 
 
-def _is_translate_of_success(prog, g, call, msg):
-    return (
-        isinstance(call, ast.Call)
-        and _qcallee(prog, call, g) == 'dawgie.pl.farm.Hand._translate'
-        and len(call.args) == 1
-        and norm(call.args[0]) == f'{msg}.success'
-    )
-
-
-def _res_facts(prog):
-    """anchors of Hand._res shared by several rules"""
+def _res_facts(ctx):
+    """anchors of Hand._res shared by several rules: (function, message parameter, routing flow, exit states)"""
+    if '_c05_res' in ctx.__dict__:
+        return ctx.__dict__['_c05_res']
+    prog = ctx.prog
     g = prog.func('dawgie.pl.farm.Hand._res')
     if not g.params():
         raise AnalysisError('Hand._res lost its message parameter')
     msg = g.params()[-1]
-    svars = set()
-    for n in g.own_nodes():
-        if isinstance(n, ast.Assign) and len(n.targets) == 1 and isinstance(n.targets[0], ast.Name):
-            if _is_translate_of_success(prog, g, n.value, msg):
-                svars.add(n.targets[0].id)
-    # a state variable must hold nothing but the translated flag
-    svars = {v for v in svars if all(_is_translate_of_success(prog, g, x, msg) for x in assigned_value(g, v))}
-    fl = _Route(prog, g, msg, svars)
+    fl = _Route(ctx, g, msg)
     exits = set()
     for o in (S, F, I):
-        out = fl.run(g.node, (o, False, 0, 0, 0))
+        out = fl.run(g.node, (o, False, 0, 0, 0, False, None))
         exits |= out.normal | out.ret
-    return g, msg, svars, fl, exits
+    ctx.__dict__['_c05_res'] = (g, msg, fl, exits)
+    return ctx.__dict__['_c05_res']
 
 
-def _complete_roles(prog):
-    """parameter names of schedule.complete by role, derived from the chronicle entry it writes:
-    'status' <- P.name, 'target' <- P, 'runid' <- P, 'task' <- P.tag"""
+_SCHED_ANCHORS = ('purge', 'update', 'organize', 'find', 'next_job_batch', 'defer', 'build', 'complete', 'periodics')
+
+
+def _complete_follow(ctx):
+    """helpers of schedule.complete that are followed: private functions of the same module (not the public anchors)"""
+    c = ctx.prog.func(SCHED + '.complete')
+    return lambda h: h.module is c.module and h.parent is None and h.cls is None and h.name not in _SCHED_ANCHORS
+
+
+def _complete_roles(ctx):
+    """parameter names of schedule.complete by role, derived from the chronicle entry it (or a followed helper) writes:
+    'status' <- P.name, 'target' <- P, 'runid' <- P, 'task' <- P.tag   -> (complete, [append calls], entry dict, roles, frames)"""
+    if '_c05_roles' in ctx.__dict__:
+        return ctx.__dict__['_c05_roles']
+    prog = ctx.prog
     c = prog.func(SCHED + '.complete')
-    calls = [x for x in c.calls() if _qcallee(prog, x, c) == CHRON]
-    entry = None
-    for x in calls:
-        if x.args:
-            e = x.args[0]
-            if isinstance(e, ast.Name):
-                e = _single_assign(c, e.id)
-            if isinstance(e, ast.Dict):
-                entry = e
+    frames = region_frames(prog, c, _complete_follow(ctx))
+    calls, entry, efr = [], None, None
+    for fr in frames:
+        for x in fr.func.calls():
+            if _qcallee(prog, x, fr.func) == CHRON:
+                calls.append(x)
+                if x.args:
+                    e = x.args[0]
+                    if isinstance(e, ast.Name):
+                        e = _single_assign(fr.func, e.id)
+                    if isinstance(e, ast.Dict):
+                        entry, efr = e, fr
     roles = {}
     if entry is not None:
         for k, v in zip(entry.keys, entry.values):
             if not (isinstance(k, ast.Constant) and isinstance(k.value, str)):
                 continue
-            if k.value == 'status' and isinstance(v, ast.Attribute) and v.attr == 'name' and isinstance(v.value, ast.Name):
-                roles['status'] = v.value.id
-            elif k.value in ('target', 'runid') and isinstance(v, ast.Name):
-                roles[k.value] = v.id
-            elif k.value == 'task' and isinstance(v, ast.Attribute) and v.attr == 'tag' and isinstance(v.value, ast.Name):
-                roles['job'] = v.value.id
-    return c, calls, entry, roles
+            lv = efr.lift(v)
+            if k.value == 'status' and isinstance(lv, ast.Attribute) and lv.attr == 'name' and isinstance(lv.value, ast.Name):
+                roles['status'] = lv.value.id
+            elif k.value in ('target', 'runid') and isinstance(lv, ast.Name):
+                roles[k.value] = lv.id
+            elif k.value == 'task' and isinstance(lv, ast.Attribute) and lv.attr == 'tag' and isinstance(lv.value, ast.Name):
+                roles['job'] = lv.value.id
+    ctx.__dict__['_c05_roles'] = (c, calls, entry, roles, frames)
+    return ctx.__dict__['_c05_roles']
 
 
 def _rule1(ctx, rep):
@@ -628,7 +805,7 @@ def _rule1(ctx, rep):
         'R-C05-1',
         'outcome routing: worker reply flag (True/None/False) -> Hand._translate (success/invalid/failure) -> '
         'schedule.update only on success, schedule.purge(job, target) on every non-success reply',
-        floor=17,
+        floor=20,
         breaks='a failed or invalid run triggers its dependents, or a good run purges them, or a failure is never withdrawn',
     ) as r:
         # the three members must exist in the enumeration
@@ -708,81 +885,101 @@ def _rule1(ctx, rep):
                     f'after {label[ph]} the worker replies with success flag(s) {flags or "none (no reply sent)"}; '
                     f'the routing in Hand._res needs {expect[ph]} (T=True, N=None, F=False)',
                 )
-        # ---- (c) Hand._res
-        g, msg, svars, route, exits = _res_facts(prog)
-        rep.analysed(g)
+        # ---- (c) Hand._res (helpers that lead to complete/update/purge are followed)
+        g, msg, route, exits = _res_facts(ctx)
+        rep.analysed(g, *route.followed.values())
         r.extra['res_states_visited'] = route.visited
+        r.extra['res_helpers_followed'] = sorted(route.followed)
         upd = [v for v in route.sites.values() if v[1] == SCHED + '.update']
         pur = [v for v in route.sites.values() if v[1] == SCHED + '.purge']
         com = [v for v in route.sites.values() if v[1] == SCHED + '.complete']
         if not com:
-            raise AnalysisError('Hand._res no longer calls schedule.complete')
-        for call, _q, outs in upd:
+            raise AnalysisError('Hand._res (with its helpers, two levels) no longer calls schedule.complete')
+        for call, _q, outs, fr in upd:
             r.instance()
             r.check(
                 outs == {S},
-                f'{g.qname}:{norm(call)}',
-                where(g, call),
+                f'{fr.func.qname}:{norm(call)}',
+                where(fr.func, call),
                 'reached only when the translated state is success',
                 f'schedule.update is reachable with outcome {sorted(outs - {S})}: a non-success run would trigger its dependents',
             )
-        for call, _q, outs in pur:
+        for call, _q, outs, fr in pur:
             r.instance()
             r.check(
                 S not in outs,
-                f'{g.qname}:{norm(call)}',
-                where(g, call),
+                f'{fr.func.qname}:{norm(call)}',
+                where(fr.func, call),
                 f'reached only with outcomes {sorted(outs)}',
                 'schedule.purge is reachable on the success outcome: a good run would withdraw its target from the dependents',
             )
+        # once the job lookup succeeded, every path reaches complete exactly once (record + queue clean-up) ...
+        for o in (S, F, I):
+            r.instance()
+            ex = [e for e in exits if e[0] == o and not e[1] and e[5]]
+            bad = sorted({f'complete called {e[2]}x after guard `{e[6]}`' if e[6] else f'complete called {e[2]}x' for e in ex if e[2] != 1})
+            bad += [f'raise `{norm(n)}` after guard `{st[6]}`' for n, st, _fr in route.raised_before_complete if st[0] == o]
+            r.check(
+                bool(ex) and not bad,
+                f'{g.qname}:must-complete:{o}',
+                where(g),
+                f'every path of a {o} reply on which schedule.find succeeded calls schedule.complete exactly once',
+                f'a {o} reply whose job was found can leave Hand._res without exactly one schedule.complete ({"; ".join(bad) or "no such path found"}): '
+                'the outcome is not recorded and, for a non-success reply, the target is not withdrawn from the dependents',
+            )
+        # ... and a non-success reply also reaches purge
         for o in (F, I):
             r.instance()
-            ex = [e for e in exits if e[0] == o and not e[1] and e[2] >= 1]
+            ex = [e for e in exits if e[0] == o and not e[1] and e[5]]
+            bad = sorted({f'after guard `{e[6]}`' if e[6] else 'unconditionally' for e in ex if e[4] < 1})
             r.check(
-                bool(ex) and all(e[4] >= 1 for e in ex),
+                bool(ex) and not bad,
                 f'{g.qname}:must-purge:{o}',
                 where(g),
-                f'every non-exceptional path that completed a {o} reply also called schedule.purge',
-                f'a {o} reply can be completed without schedule.purge being called: the target stays pending in the dependents',
+                f'every non-exceptional path of a {o} reply whose job was found also called schedule.purge',
+                f'a {o} reply whose job was found can leave Hand._res without schedule.purge being called ({"; ".join(bad) or "no such path"}): '
+                'the target stays pending in the dependents',
             )
         # purge receives the very job and target that were completed
         r.instance()
-        c, _cc, _entry, roles = _complete_roles(prog)
+        c, _cc, _entry, roles, _frames = _complete_roles(ctx)
         detail = []
         okargs = bool(pur)
-        for call, _q, _o in pur:
-            for cc, _q2, _o2 in com:
+        pf = prog.func(SCHED + '.purge')
+        for call, _q, _o, pfr in pur:
+            for cc, _q2, _o2, cfr in com:
                 jp = _call_arg(c, cc, roles.get('job', 'job'))
                 tp = _call_arg(c, cc, roles.get('target', 'target'))
-                pf = prog.func(SCHED + '.purge')
                 pj = _call_arg(pf, call, pf.params()[0])
                 pt = _call_arg(pf, call, pf.params()[1]) if len(pf.params()) > 1 else None
                 if None in (jp, tp, pj, pt):
                     okargs = False
                     detail.append('argument not found')
                     continue
-                a1, a2 = canon_expr(g, jp), canon_expr(g, pj)
-                b1, b2 = canon_expr(g, tp), canon_expr(g, pt)
+                a1, a2 = cfr.text(jp), pfr.text(pj)
+                b1, b2 = cfr.text(tp), pfr.text(pt)
                 if a1 != a2 or b1 != b2:
                     okargs = False
                     detail.append(f'complete({a1}, .., {b1}) vs purge({a2}, {b2})')
                 # the job must be the queue entry looked up under the reply's job id
-                jv = _single_assign(g, jp.id) if isinstance(jp, ast.Name) else jp
+                org = cfr.origin(jp)
+                jv = _single_assign(org[0].func, org[1]) if org is not None else jp
+                ofr = org[0] if org is not None else cfr
                 if not (
                     isinstance(jv, ast.Call)
-                    and _qcallee(prog, jv, g) == SCHED + '.find'
+                    and _qcallee(prog, jv, ofr.func) == SCHED + '.find'
                     and jv.args
-                    and norm(jv.args[0]) == f'{msg}.jobid'
+                    and ofr.text(jv.args[0]) == f'{msg}.jobid'
                 ):
                     okargs = False
-                    detail.append(f'job {norm(jp)} is not schedule.find({msg}.jobid)')
+                    detail.append(f'job {a1} is not schedule.find({msg}.jobid)')
                 if f'{msg}.incarnation' not in b1:
                     okargs = False
                     detail.append(f'target {b1} is not derived from {msg}.incarnation')
         r.check(
             okargs,
             f'{g.qname}:purge-args',
-            where(g, pur[0][0] if pur else None),
+            where(pur[0][3].func, pur[0][0]) if pur else where(g),
             'purge(job, target) gets the job found under msg.jobid and the same target expression as complete',
             'schedule.purge is not applied to the failing job and its own target: ' + '; '.join(detail or ['no purge call']),
         )
@@ -1361,17 +1558,17 @@ def _rule3(ctx, rep, setup):
             r.instance()
             r.fail(f'{p.qname}:{norm(node)}', where(p, node), msg)
         # ---- complete
-        c, _calls, _entry, roles = _complete_roles(prog)
-        rep.analysed(c)
+        c, _calls, _entry, roles, cframes = _complete_roles(ctx)
+        rep.analysed(*[fr.func for fr in cframes])
         job, tgt = roles.get('job'), roles.get('target')
         if job is None or tgt is None:
             raise AnalysisError('cannot derive the job/target parameters of schedule.complete from its chronicle entry')
 
-        class All(Flow):
-            """oracle atom A = (target == '__all__'); records which values of A reach each call"""
+        class All(_IFlow):
+            """oracle atom A = (target == '__all__'); records which values of A reach each call (helpers followed)"""
 
             def __init__(self):
-                super().__init__()
+                super().__init__(prog, c, _complete_follow(ctx))
                 self.reach = {}
 
             def on_test(self, e, st):
@@ -1379,7 +1576,7 @@ def _rule3(ctx, rep, setup):
                     a, b = e.left, e.comparators[0]
                     if is_const(a, '__all__'):
                         a, b = b, a
-                    if isinstance(a, ast.Name) and a.id == tgt and is_const(b, '__all__'):
+                    if isinstance(a, ast.Name) and self.fr.text(a) == tgt and is_const(b, '__all__'):
                         if isinstance(e.ops[0], (ast.Eq, ast.Is)):
                             return ((st,), ()) if st else ((), (st,))
                         if isinstance(e.ops[0], (ast.NotEq, ast.IsNot)):
@@ -1388,7 +1585,8 @@ def _rule3(ctx, rep, setup):
 
             def on_call(self, call, st):
                 self.reach.setdefault(id(call), set()).add(st)
-                return (st,)
+                sub = self.descend(call, st)
+                return tuple(sub) if sub is not None else (st,)
 
         al = All()
         al.run(c.node, True)
@@ -1397,86 +1595,92 @@ def _rule3(ctx, rep, setup):
             r.instance()
             r.fail(f'{c.qname}:rebinds:{tgt}', where(c), f'schedule.complete rebinds its target parameter {tgt}')
 
-        def is_p(e, name):
-            return isinstance(e, ast.Name) and e.id == name
+        helper_calls = {id(fr.call) for fr in cframes if fr.call is not None}
+        for fr in cframes:
+            fn = fr.func
 
-        for m in mutations(prog, c):
-            r.instance()
-            node, kind, op = m['node'], m['kind'], m['op']
-            key = f'{c.qname}:{norm(node)}'
-            w = where(c, node)
-            if kind == 'ws':
-                if not is_p(m['recv'], job):
-                    r.fail(key, w, f'{norm(node)} changes a work set of a node other than the completed job')
-                elif op in ('remove', 'discard') and len(m['args']) == 1 and is_p(m['args'][0], tgt):
-                    r.ok(key, f'removes only the completed target from the job\'s {m["wkind"]} set', w)
-                elif op == 'clear':
-                    reach = al.reach.get(id(node), set())
+            def is_p(e, name, fr=fr):
+                return isinstance(e, ast.AST) and fr.text(e) == name
+
+            for m in mutations(prog, fn):
+                r.instance()
+                node, kind, op = m['node'], m['kind'], m['op']
+                key = f'{fn.qname}:{norm(node)}'
+                w = where(fn, node)
+                if kind == 'ws':
+                    if not is_p(m['recv'], job):
+                        r.fail(key, w, f'{norm(node)} changes a work set of a node other than the completed job')
+                    elif op in ('remove', 'discard') and len(m['args']) == 1 and is_p(m['args'][0], tgt):
+                        r.ok(key, f'removes only the completed target from the job\'s {m["wkind"]} set', w)
+                    elif op == 'clear':
+                        reach = al.reach.get(id(node), set())
+                        r.check(
+                            reach == {True},
+                            key,
+                            w,
+                            "clear() is reached only when the completed target is '__all__'",
+                            f"{norm(node)} is reachable for a target other than '__all__': completing one target would drop the executing work of the others",
+                        )
+                    else:
+                        r.fail(key, w, f'{norm(node)}: completing a run may only remove its own target from the job\'s work sets')
+                elif kind == 'wsset':
+                    r.fail(key, w, f'{norm(node)} replaces a work set while completing a run')
+                elif kind == 'que':
                     r.check(
-                        reach == {True},
+                        op == 'remove' and len(m['args']) == 1 and is_p(m['args'][0], job),
                         key,
                         w,
-                        "clear() is reached only when the completed target is '__all__'",
-                        f"{norm(node)} is reachable for a target other than '__all__': completing one target would drop the executing work of the others",
+                        'only the completed job is pruned from the queue',
+                        f'{norm(node)} changes the queue other than by removing the completed job',
+                        nontrivial=False,
                     )
+                elif kind == 'attrset':
+                    r.check(is_p(m['recv'], job), key, w, f'attribute {m["key"]} of the job itself', f'{norm(node)} sets an attribute of another node', nontrivial=False)
+                elif kind == 'hist':
+                    r.check(op == 'append', key, w, 'in-memory history append', f'{norm(node)} changes the in-memory history other than by appending', nontrivial=False)
+                elif kind in ('local', 'param'):
+                    root = ast.Name(id=str(m['detail']).split('.')[0], ctx=ast.Load())
+                    ok = kind == 'local' or fr.text(root) != job
+                    r.check(ok, key, w, 'private data of this call (timing record)', f'{norm(node)} mutates the job node directly', nontrivial=False)
                 else:
-                    r.fail(key, w, f'{norm(node)}: completing a run may only remove its own target from the job\'s work sets')
-            elif kind == 'wsset':
-                r.fail(key, w, f'{norm(node)} replaces a work set while completing a run')
-            elif kind == 'que':
-                r.check(
-                    op == 'remove' and len(m['args']) == 1 and is_p(m['args'][0], job),
-                    key,
-                    w,
-                    'only the completed job is pruned from the queue',
-                    f'{norm(node)} changes the queue other than by removing the completed job',
-                    nontrivial=False,
-                )
-            elif kind == 'attrset':
-                r.check(is_p(m['recv'], job), key, w, f'attribute {m["key"]} of the job itself', f'{norm(node)} sets an attribute of another node', nontrivial=False)
-            elif kind == 'hist':
-                r.check(op == 'append', key, w, 'in-memory history append', f'{norm(node)} changes the in-memory history other than by appending', nontrivial=False)
-            elif kind in ('local', 'param'):
-                ok = kind == 'local' or m['detail'].split('.')[0] not in (job,)
-                r.check(ok, key, w, 'private data of this call (timing record)', f'{norm(node)} mutates the job node directly', nontrivial=False)
-            else:
-                r.fail(key, w, f'{norm(node)} changes {kind} state {m.get("detail", "")}: outside the frame of completing one run')
-        for call in c.calls():
-            q = _qcallee(prog, call, c)
-            if q in prog.funcs:
-                r.instance()
-                hits = sched_writers(ctx, q)
-                r.check(
-                    not hits,
-                    f'{c.qname}:{norm(call)[:70]}',
-                    where(c, call),
-                    f'{q} reaches no writer of scheduler work state',
-                    f'{norm(call)[:70]} reaches {hits[0][0].qname if hits else ""}, which changes scheduler work state',
-                )
-        # ---- Hand._res: what else runs on a non-success reply
-        g, _msg, _svars, route, _exits = _res_facts(prog)
+                    r.fail(key, w, f'{norm(node)} changes {kind} state {m.get("detail", "")}: outside the frame of completing one run')
+            for call in fn.calls():
+                q = _qcallee(prog, call, fn)
+                if q in prog.funcs and id(call) not in helper_calls:
+                    r.instance()
+                    hits = sched_writers(ctx, q)
+                    r.check(
+                        not hits,
+                        f'{fn.qname}:{norm(call)[:70]}',
+                        where(fn, call),
+                        f'{q} reaches no writer of scheduler work state',
+                        f'{norm(call)[:70]} reaches {hits[0][0].qname if hits else ""}, which changes scheduler work state',
+                    )
+        # ---- Hand._res (and the helpers followed from it): what else runs on a non-success reply
+        g, _msg, route, _exits = _res_facts(ctx)
         allowed = {SCHED + '.complete', SCHED + '.purge'}
-        for call, q, outs in sorted(route.sites.values(), key=lambda x: (x[0].lineno, x[0].col_offset)):
-            if not (outs & {F, I}) or q not in prog.funcs:
+        for call, q, outs, fr in sorted(route.sites.values(), key=lambda x: (x[3].depth, x[0].lineno, x[0].col_offset)):
+            if not (outs & {F, I}) or q not in prog.funcs or id(call) in route.followed_calls:
                 continue
             r.instance()
-            key = f'{g.qname}:{norm(call)[:70]}'
+            key = f'{fr.func.qname}:{norm(call)[:70]}'
             if q in allowed:
-                r.ok(key, f'{q}: analysed above', where(g, call), nontrivial=False)
+                r.ok(key, f'{q}: analysed above', where(fr.func, call), nontrivial=False)
                 continue
             hits = sched_writers(ctx, q)
             r.check(
                 not hits,
                 key,
-                where(g, call),
+                where(fr.func, call),
                 f'{q} reaches no writer of scheduler work state',
                 f'on a non-success reply Hand._res calls {q}, which reaches {hits[0][0].qname if hits else ""} '
                 f'({norm(hits[0][1]["node"])[:60] if hits else ""}): scheduler work state changes outside purge/complete',
             )
-        for m in mutations(prog, g):
-            if m['kind'] in ('ws', 'wsset', 'que', 'attrset') or (m['kind'] in ('glob', 'hist') and str(m.get('detail', '')).startswith(SCHED + '.')):
-                r.instance()
-                r.fail(f'{g.qname}:{norm(m["node"])}', where(g, m['node']), f'Hand._res changes scheduler work state directly: {norm(m["node"])}')
+        for fn in [g] + list(route.followed.values()):
+            for m in mutations(prog, fn):
+                if m['kind'] in ('ws', 'wsset', 'que', 'attrset') or (m['kind'] in ('glob', 'hist') and str(m.get('detail', '')).startswith(SCHED + '.')):
+                    r.instance()
+                    r.fail(f'{fn.qname}:{norm(m["node"])}', where(fn, m['node']), f'Hand._res changes scheduler work state directly: {norm(m["node"])}')
 
 
 # ---------------------------------------------------------------------------
@@ -1507,15 +1711,21 @@ def _rule4(ctx, rep):
     with rep.rule(
         'R-C05-4',
         'schedule.complete reaches chronicle.append on every path with the translated state, the target and the job of the reply',
-        floor=4,
+        floor=5,
         breaks='a failed or invalid run leaves no trace in the execution history',
     ) as r:
-        c, calls, entry, roles = _complete_roles(prog)
-        rep.analysed(c)
+        c, calls, entry, roles, cframes = _complete_roles(ctx)
+        rep.analysed(*[fr.func for fr in cframes])
 
-        class Must(Flow):
+        class Must(_IFlow):
+            def __init__(self):
+                super().__init__(prog, c, _complete_follow(ctx))
+
             def on_call(self, call, st):
-                return ((min(2, st + 1),) if any(call is x for x in calls) else (st,))
+                if any(call is x for x in calls):
+                    return (min(2, st + 1),)
+                sub = self.descend(call, st)
+                return tuple(sub) if sub is not None else (st,)
 
         m = Must()
         out = m.run(c.node, 0)
@@ -1555,22 +1765,67 @@ def _rule4(ctx, rep):
             "entry['status'] = <status parameter>.name, target / runid / task taken from the unmodified parameters",
             f'the chronicle entry does not record the outcome of this run: not taken from a parameter {missing + notparam}, parameter rebound {rebound}',
         )
+        # chronicle.append itself: every path that passes the key validation adds the entry to the list that is written out
+        ent = a.params()[0]
+
+        class Persist(Flow):
+            """state = (name of the list the entry was appended to | None, that list was written with json.dump)"""
+
+            def __init__(self):
+                super().__init__()
+                self.status_tests = []
+
+            def on_test(self, e, st):
+                for n in ast.walk(e):
+                    if isinstance(n, ast.Subscript) and isinstance(n.value, ast.Name) and n.value.id == ent and is_const(n.slice, 'status'):
+                        self.status_tests.append(e)
+                return (st,), (st,)
+
+            def on_stmt(self, s, st):
+                # the list is rebound after the entry went in: the entry is lost again
+                if isinstance(s, ast.Assign) and st[0] and any(isinstance(t, ast.Name) and t.id == st[0] for t in s.targets):
+                    return ((None, False),)
+                return (st,)
+
+            def on_call(self, call, st):
+                f = call.func
+                if isinstance(f, ast.Attribute) and f.attr in ('append', 'insert') and isinstance(f.value, ast.Name):
+                    if call.args and isinstance(call.args[-1], ast.Name) and call.args[-1].id == ent:
+                        return ((f.value.id, False),)
+                if (prog.resolve_in(f, a) or '') == 'external:json.dump' and call.args and st[0]:
+                    if isinstance(call.args[0], ast.Name) and call.args[0].id == st[0]:
+                        return ((st[0], True),)
+                return (st,)
+
+        pf = Persist()
+        po = pf.run(a.node, (None, False))
+        r.instance()
+        pex = po.normal | po.ret
+        r.check(
+            bool(pex) and all(e[1] for e in pex) and not pf.status_tests,
+            f'{a.qname}:persist',
+            where(a),
+            'every normal exit of chronicle.append has appended the entry to the journal list and written that list with json.dump',
+            'chronicle.append can return without the entry having been appended to the journal list and dumped'
+            + (f' (its behaviour depends on the status: {norm(pf.status_tests[0])})' if pf.status_tests else '')
+            + ': a non-success outcome may leave no trace in the execution history',
+        )
         # Hand._res hands the translated state, the reply's target and run id to those parameters
-        g, msg, svars, route, _exits = _res_facts(prog)
+        g, msg, route, _exits = _res_facts(ctx)
         com = [v for v in route.sites.values() if v[1] == c.qname]
-        for call, _q, _o in com:
+        for call, _q, _o, fr in com:
             r.instance()
             bad = []
             sa = _call_arg(c, call, roles.get('status', 'status'))
-            if not (sa is not None and ((isinstance(sa, ast.Name) and sa.id in svars) or _is_translate_of_success(prog, g, sa, msg))):
+            if not (sa is not None and route.is_state_expr(sa, fr)):
                 bad.append(f'status argument {norm(sa) if sa is not None else None} is not Hand._translate({msg}.success)')
             ra = _call_arg(c, call, roles.get('runid', 'runid'))
-            if ra is None or canon_expr(g, ra) != f'{msg}.runid':
+            if ra is None or fr.text(ra) != f'{msg}.runid':
                 bad.append('run id argument is not the reply\'s run id')
             r.check(
                 not bad,
-                f'{g.qname}:{norm(call)}',
-                where(g, call),
+                f'{fr.func.qname}:{norm(call)}',
+                where(fr.func, call),
                 'complete(job, msg.runid, target, timing, translated state)',
                 '; '.join(bad),
             )
@@ -1620,14 +1875,26 @@ _ROUTE = (
     '                dawgie.pl.schedule.purge(job, inc)'
 )
 _PURGE_BODY_FIXED = (
-    "if target in node.get('do', []):\n        node.get('do').remove(target)\n"
+    "executing = target in node.get('doing', [])  # its reply is still to come\n"
+    "    if target in node.get('do', []):\n        node.get('do').remove(target)\n"
     "    if target in node.get('doing', []):\n        node.get('doing').remove(target)\n"
     "    if target in node.get('todo', []):\n        node.get('todo').remove(target)\n"
-    "    if node in que and not (node.get('todo', []) or node.get('doing', [])):\n        que.remove(node)\n\n"
+    "    if (\n        not executing\n        and node in que\n        and not (node.get('todo', []) or node.get('doing', []))\n    ):\n        que.remove(node)\n\n"
     "    # an algorithm that reads one of its own state vectors is its own child in\n"
     "    # the algorithm tree; skip that edge the same way Node.iter/locate do\n"
     "    " + _LOOP_FIXED + "\n        purge(child, target)\n    return"
 )
+_RES_TAIL = (
+    "\n\n        except IndexError:\n            log.error('Could not find job with ID: %s', msg.jobid)\n        return\n\n"
+    "    @staticmethod\n    def _translate(state):"
+)
+_SETTLE = (
+    "    @staticmethod\n    def _settle(job, inc, state, msg):\n"
+    "        dawgie.pl.schedule.complete(job, msg.runid, inc, msg.timing, state)\n"
+    "        if state != dawgie.pl.schedule.State.success:\n            dawgie.pl.schedule.purge(job, inc)\n            %s\n"
+    "        dawgie.pl.farm.ARCHIVE |= any(msg.values)\n        dawgie.pl.schedule.update(msg.values, job, msg.runid)\n        return\n\n"
+)
+_COMPLETE_CALL = 'dawgie.pl.schedule.complete(job, msg.runid, inc, msg.timing, state)\n\n            '
 
 VARIANTS = [
     # ---------------------------------------------------------------- breaking
@@ -1657,7 +1924,14 @@ VARIANTS = [
     V('chronicle entry records a constant status', 'B', _SCH, 'complete', "'status': status.name,", "'status': State.failure.name,", 'R-C05-4'),
     V('chronicle entry lacks the version key', 'B', _SCH, 'complete', "'version': job.get('alg').asstring(),", '', 'R-C05-4'),
     V('raw flag handed to complete', 'B', _FARM, 'Hand._res', 'dawgie.pl.schedule.complete(job, msg.runid, inc, msg.timing, state)', 'dawgie.pl.schedule.complete(job, msg.runid, inc, msg.timing, dawgie.pl.schedule.State.success)', 'R-C05-4'),
+    V('routing helper Hand._settle falls through to update on failure', 'B', _FARM, None, _COMPLETE_CALL + _ROUTE + _RES_TAIL, 'Hand._settle(job, inc, state, msg)' + _RES_TAIL.replace('    @staticmethod\n    def _translate(state):', _SETTLE % 'pass' + '    @staticmethod\n    def _translate(state):'), 'R-C05-1'),
+    V('chronicle.append keeps only successful runs', 'B', 'pl/logger/chronicle.py', 'append', 'entries.append(entry)', "if entry['status'] == 'success':\n        entries.append(entry)", 'R-C05-4'),
+    V('chronicle.append does not write the journal when it already exists', 'B', 'pl/logger/chronicle.py', 'append', "entries.append(entry)\n    with open(journal, 'tw', encoding='utf-8') as file:\n        json.dump(entries, file, indent=2)", "entries.append(entry)\n    if len(entries) == 1:\n        with open(journal, 'tw', encoding='utf-8') as file:\n            json.dump(entries, file, indent=2)", 'R-C05-4'),
+    V('reply ignored when the target is no longer in doing', 'B', _FARM, 'Hand._res', 'dawgie.pl.schedule.complete(job, msg.runid, inc, msg.timing, state)', "if inc not in job.get('doing'):\n                log.warning('Ignoring response for %s: not in flight', done)\n                return\n            dawgie.pl.schedule.complete(job, msg.runid, inc, msg.timing, state)", 'R-C05-1'),
+    V('complete only for targets still in doing (nested form)', 'B', _FARM, 'Hand._res', 'dawgie.pl.schedule.complete(job, msg.runid, inc, msg.timing, state)', "if inc in job.get('doing'):\n                dawgie.pl.schedule.complete(job, msg.runid, inc, msg.timing, state)", 'R-C05-1'),
     # ------------------------------------------------------------------ benign
+    V('chronicle.append with the list renamed', 'N', 'pl/logger/chronicle.py', 'append', 'entries', 'records', None, 'all'),
+    V('routing extracted into Hand._settle with an early return', 'N', _FARM, None, _COMPLETE_CALL + _ROUTE + _RES_TAIL, 'Hand._settle(job, inc, state, msg)' + _RES_TAIL.replace('    @staticmethod\n    def _translate(state):', _SETTLE % 'return' + '    @staticmethod\n    def _translate(state):'), None),
     V('rename loop variable and lambda parameter', 'N', _SCH, 'purge', _LOOP_FIXED + '\n        purge(child, target)', 'for kid in filter(lambda k, me=node.tag: k.tag != me, node):\n        purge(kid, target)', None),
     V('self edge skipped by a guard inside the loop', 'N', _SCH, 'purge', _LOOP_FIXED + '\n        purge(child, target)', 'for child in list(node):\n        if child.tag == node.tag:\n            continue\n        purge(child, target)', None),
     V(
@@ -1666,8 +1940,8 @@ VARIANTS = [
         _SCH,
         'purge',
         _PURGE_BODY_FIXED,
-        "stack = [node]\n    while stack:\n        n = stack.pop()\n        for k in ('do', 'doing', 'todo'):\n            if target in n.get(k, []):\n"
-        "                n.get(k).remove(target)\n        if n in que and not (n.get('todo', []) or n.get('doing', [])):\n            que.remove(n)\n"
+        "stack = [node]\n    while stack:\n        n = stack.pop()\n        executing = target in n.get('doing', [])\n        for k in ('do', 'doing', 'todo'):\n            if target in n.get(k, []):\n"
+        "                n.get(k).remove(target)\n        if not executing and n in que and not (n.get('todo', []) or n.get('doing', [])):\n            que.remove(n)\n"
         "        stack.extend(filter(lambda c, me=n.tag: c.tag != me, n))\n    return",
         None,
     ),
